@@ -13,7 +13,7 @@ from harness import common
 
 BOUNDS = {
     "quick": {"dataset": "2 inputs, 2 times x 1 lead time x 2 locations, obs/fcst/other real-or-NaN",
-              "sequences": "all 36 sequences of length 2 over a menu of 6 requests; with and without -obsrange"},
+              "sequences": "all 36 sequences of length 2 over a menu of 6 requests; with and without -obsrange; with a climatology; with -T 12 (sum over two lead times)"},
     "thorough": {"dataset": "2 inputs, 2 x 1 x 2 (length 2) and 2 x 1 x 1 (length 3)",
                  "sequences": "all 100 sequences of length 2 and all 1000 of length 3 over a menu of 10 requests"},
 }
@@ -44,12 +44,16 @@ def as_list(res):
     return res if isinstance(res, list) else [res]
 
 
-def h_history(T, P, length, nmenu, with_clim=False):
+def h_history(T, P, length, nmenu, with_clim=False, with_T=False):
     def fn(S):
         data = load.modules["verif.data"]
+        aggmod = load.modules["verif.aggregator"]
+        axmod = load.modules["verif.axis"]
         MI = common.input_class()
         times = [86400 * i for i in range(T)]
-        shape = (T, 1, P)
+        L = 2 if with_T else 1
+        lts = [0.0, 6.0][:L]
+        shape = (T, L, P)
         base = {}
         for nm in ("A", "B"):
             base[nm] = {f: S.array("%s.%s" % (nm, f), shape) for f in ("obs", "fcst", "extra")}
@@ -67,14 +71,18 @@ def h_history(T, P, length, nmenu, with_clim=False):
             for nm in ("A", "B"):
                 arrs = {f: base[nm][f].copy() for f in base[nm]}
                 kept.append(arrs)
-                ins.append(MI(nm + ".txt", common.int_array(S, times), S.vector([0.0]),
+                ins.append(MI(nm + ".txt", common.int_array(S, times), S.vector(lts),
                               common.locations(list(range(1, P + 1))),
                               obs=arrs["obs"], fcst=arrs["fcst"], others={"extra": arrs["extra"]}))
             if clim_type is not None:
                 xarr = clim_base.copy()
-                X = MI("X.txt", common.int_array(S, times), S.vector([0.0]), common.locations(list(range(1, P + 1))),
+                X = MI("X.txt", common.int_array(S, times), S.vector(lts), common.locations(list(range(1, P + 1))),
                        obs=xarr.copy(), fcst=xarr, others={"extra": xarr.copy()})
                 return data.Data(ins, clim=X, clim_type=clim_type), kept
+            if with_T:
+                # -T 12 -Tagg sum: every field is pre-aggregated over a trailing window of two lead times
+                return data.Data(ins, obs_range=obs_range, dim_agg_length=12, dim_agg_axis=axmod.Leadtime(),
+                                 dim_agg_method=aggmod.Sum()), kept
             return data.Data(ins, obs_range=obs_range), kept
 
         clim_base = S.array("X.fcst", shape, nan=False) if clim_type is not None else None
@@ -125,6 +133,8 @@ def harnesses(tier):
             Harness("history.len2", h_history(2, 2, 2, 10), "all sequences of 2 requests over the 10-request menu"),
             Harness("history.len3", h_history(2, 1, 3, 10), "all sequences of 3 requests, one location"),
             Harness("history.clim", h_history(2, 2, 2, 10, with_clim=True), "sequences of 2 requests with a climatology"),
+            Harness("history.T", h_history(1, 2, 2, 10, with_T=True), "sequences of 2 requests with -T pre-aggregation over two lead times"),
         ]
     return [Harness("history.len2", h_history(2, 2, 2, 6), "all sequences of 2 requests over a 6-request menu"),
-            Harness("history.clim", h_history(1, 2, 2, 6, with_clim=True), "the same with a climatology (anomalies), 1 time x 2 locations")]
+            Harness("history.clim", h_history(1, 2, 2, 6, with_clim=True), "the same with a climatology (anomalies), 1 time x 2 locations"),
+            Harness("history.T", h_history(1, 1, 2, 6, with_T=True), "the same with -T pre-aggregation over two lead times, 1 time x 1 location")]
